@@ -250,8 +250,10 @@ class Rig(object):
                 trace += [len(plog)]
                 for x in plog:
                     trace += [len(x)] + list(x)
-            if debug and len(self.options.logger.records) != len([1 for _ in self.plog]) and events_enabled:
+            if debug and events_enabled and len(self.options.logger.records) != len(self.plog):
                 raise HarnessFailure('main-log debug records and PROCESS_LOG events differ in number')
+            if debug and not events_enabled and log and not self.options.logger.records:
+                raise HarnessFailure('loglevel=debug but the output was not copied to the main log')
             info = {'log': log, 'comm': comm, 'plog': plog, 'cap': capv, 'buf': d.output_buffer,
                     'capmode': bool(d.capturemode), 'syslog': list(self.syslog.lines)}
         finally:
@@ -352,7 +354,10 @@ def exact_job(job):
     """job = (script, capmax, channel, events_enabled, logmode) -> (trace, judge failure or None, summary)"""
     frags, capmax, channel, ev, logmode = job
     try:
-        tr, info = _RIG.run(frags, capmax, channel=channel, events_enabled=ev, logmode=logmode)
+        # every third script also with loglevel=debug: _log copies the data to the main log (decoded, or
+        # 'Undecodable: ...' for binary output)
+        tr, info = _RIG.run(frags, capmax, channel=channel, events_enabled=ev, logmode=logmode,
+                            debug=(len(frags) + capmax) % 3 == 0)
     except HarnessFailure as e:
         return None, str(e), None
     script = frags
